@@ -348,7 +348,7 @@ def cases(draw):
     n = draw(st.integers(1, 6))
     cls = []
     for _ in range(n):
-        k = draw(st.integers(1, 3))
+        k = draw(st.sampled_from([1, 1, 2, 2, 2, 3, 3, 3, 3, 4]))   # clauses of 4-5 literals: built and compared, not replayed (below)
         cls.append([draw(st.sampled_from([1, 2, 3, 4])) * draw(st.sampled_from([1, -1])) for _ in range(k)])
     if draw(st.integers(0, 5)) == 0:
         # directed: every clause trivially true, several clauses over the same literals in different order / multiplicity
@@ -370,8 +370,9 @@ def cases(draw):
         # make it unsatisfiable more often: add unit clauses contradicting a chain
         v = draw(st.sampled_from([1, 2, 3, 4]))
         cls.insert(draw(st.integers(0, len(cls))), [v]); cls.insert(draw(st.integers(0, len(cls))), [-v])
-    if part == 'clauses':
-        return {'part': 'clauses', 'clauses': cls, 'replay': draw(st.integers(0, 3)) == 0}
+    if part == 'clauses' or max(len(x) for x in cls) >= 4:
+        # (proofs over clauses of four or more literals have millions of steps: their conclusion is compared, they are not replayed)
+        return {'part': 'clauses', 'clauses': cls, 'replay': draw(st.integers(0, 3)) == 0 and max(len(x) for x in cls) <= 3}
     # end to end: the negation of the clause conjunction as a formula
     lit = lambda x: ('v', x - 1) if x > 0 else ('not', ('v', -x - 1))
     fr = lambda op, xs: xs[0] if len(xs) == 1 else (op, xs[0], fr(op, xs[1:]))
